@@ -10,8 +10,8 @@ from . import runcommon as rc
 
 class C06(Prop):
     id = "C06"
-    contract_modules = ["lexer", "transpiler"]
-    extra_keys = ["vyxal/lexer.py::tokenise", "vyxal/transpile.py::transpile_token"]
+    contract_modules = ["lexer", "transpiler", "parser"]
+    extra_keys = ["vyxal/lexer.py::tokenise", "vyxal/transpile.py::transpile_token", "parse#dispatch"]
     trusted_base = ["CPython reads the double-quoted literal body q as pyval(q) (conformance-checked exhaustively on short bodies)", "z3 5.1 / cvc5 1.0.3 (unsat answers)", "textwrap.indent only adds leading spaces", "the dictionary tables themselves are never consulted on the proved paths (no dictionary digit in the text)"]
     paper_steps = [
         "chain, each link proved: quotify(s) == '`' + esc(s) + '`' (contract + lemma replace_chain_is_esc); esc(s) is a string body (escaped_text_is_a_string_body), so lex('`'+esc(s)+'`'+rest) starts with STRING(esc(s)) (tokenise == lex, string_payload_is_data); transpile_token(STRING(esc(s)), dict_compress=False) == stack.append(\"pyq(esc(s))\") (contract); pyval(pyq(esc(s))) == s (quoted_text_evaluates_back)",
@@ -55,6 +55,8 @@ class C06(Prop):
         esc_alpha = ["\\", "`", '"', "'", "\n", "a", "n", "x", "0", "λ"]
         maxlen = 3 if tier != "thorough" else 4
         strings = ["".join(t) for L in range(0, maxlen + 1) for t in itertools.product(esc_alpha, repeat=L)]
+        strings += list(enc.codepage)  # every one-character string (a parser that looks at a literal's value would drop some)
+        strings += ["".join(t) for t in itertools.product(" |])};⟩[({", repeat=2)]
         strings += ["".join(rnd.choice(enc.codepage) for _ in range(rnd.randrange(1, 40))) for _ in range(300 if tier != "thorough" else 6000)]
         n = 0
         # history in one process: the same characters lowered first as a compressed string / number / character
@@ -72,6 +74,23 @@ class C06(Prop):
                         return dict(string=s, lowered_before=other, dict_compress=dc, error=f"{type(e).__name__}: {e}"), n
                     if err is not None or ns["stack"] != [s]:
                         return dict(string=s, lowered_before=other, dict_compress=dc, quoted=text, stack=repr(ns["stack"]), error=err), n
+        # through the interpreter's entry point with the D flag (compression off is a flag of the run, not only an
+        # argument of transpile)
+        import contextlib
+        import io
+        from vyxal.main import execute_vyxal
+
+        for s in ["λλ", "ƛƛ", "λ", "ab", "Ẏė", "¬ø"] + ["".join(rnd.choice(enc.codepage.replace("\n", "")) for _ in range(rnd.randrange(1, 20))) for _ in range(20)]:
+            n += 1
+            text = el.quotify(s, ctx)
+            buf = io.StringIO()
+            try:
+                with contextlib.redirect_stdout(buf):
+                    execute_vyxal(text, "eD", [])
+            except BaseException as e:  # noqa
+                return dict(string=s, quoted=text, flags="eD", error=f"{type(e).__name__}: {e}"), n
+            if buf.getvalue() != s + "\n":
+                return dict(string=s, quoted=text, flags="eD", printed=buf.getvalue()[:80], expected=s + "\n"), n
         for s in strings:
             text = el.quotify(s, ctx)
             for dc in (True, False, True):
